@@ -14,24 +14,23 @@ DRIVER = "drv_persist"
 HARNESS_BIN = "persist"
 HARNESS_FEATURES = ""
 PARTIAL = [
-    "crash_sound_core is proved in full for the CORE model (input, normal and external-input queries, ordered reads and unordered groups, refresh, dynamic dependency "
-    "sets): every image of the store between two logical write batches of any history — including the images in the "
-    "middle of a query, with the dirty edges of keys still in progress as the store still has them — satisfies the C01 "
-    "invariant, shows the inputs of a prefix of the history, and the engine reopened on it answers every query with "
-    "the from-scratch value for those inputs.  For the FULL model (firewall / projection / external nodes, backward "
-    "projection) the same statement is refuted as-is by known findings F1 and F14 exactly as without a crash (the "
-    "check excuses a wrong value after a crash only if a never-crashed engine driven to a point of the same epoch "
-    "answers identically, or a known-finding toggle of the model repairs it) and is not proved for the repaired "
-    "configuration; there it is covered by the correspondence (model `crash L` vs the real engine reopened on the "
-    "first p physical commits, every p) and the from-scratch oracle.",
+    "crash_sound_core is proved in full on the core model Qbice.Core (inputs, normal queries, externals, unordered "
+    "groups; dynamic dependency sets): every image of the store between two logical write batches of any history — "
+    "including the images in the middle of a query, with the dirty edges of keys still in progress as the store still "
+    "has them — satisfies the C01 invariant, shows the inputs of a prefix of the history, and the engine reopened on it "
+    "answers every query with the from-scratch value for those inputs.  It is not restated on Qbice.CoreFw (firewall / "
+    "projection nodes, backward projection): there the statement is covered by the correspondence (model `crash L` vs "
+    "the real engine reopened on the first p physical commits, every p) and the from-scratch oracle; no attribution is "
+    "left — any wrong value after a crash is a violation (F1 / F14 are fixed in /repo).",
     "prefix_is_reachable: the batch of a publication is defined as the difference of the persistent images before "
     "and after it; that the code's batches have exactly these boundaries is tied by the correspondence (`crash L` "
-    "addresses the model's L-th image; batch counts at every shutdown are compared).",
+    "addresses the model's L-th image; batch counts at every shutdown are compared, up to the first walk-order "
+    "choice point of a case).",
     "prefix_atomic is C10's theorem about the write-behind model restated; it is not composed with the engine model in "
     "one transition system (the composition used here: sequential history => batches are created, filled and submitted "
     "one at a time, so epoch order = publication order).",
-    "sequential histories only (finding F8: a session opened while readers are still publishing gets a lower epoch "
-    "than reader batches created later but published earlier; reproduced by the C07 check, fixed by the F5 reordering).",
+    "sequential histories only (former finding F8 — a session opened while readers are still publishing — is fixed in "
+    "/repo and replayed by the C07 check).",
     "cases with external inputs are exercised by C07 only (after a crash the environment is not rolled back).",
     "what RocksDB / Fjall actually retain after kill -9 is outside the model (assumed: a prefix of the committed write "
     "batches, each atomically); the thorough tier samples it on RocksDB (WAL off: usually the state of the last clean "
@@ -49,64 +48,21 @@ pre = base.pre
 
 def run(ctx):
     res, an, reps = base.collect(ctx, "c08", 40, 1100)
+    seen = set()
     for r in reps:
         for f in r["oracle_failures"]:
-            if f["sig"] == "C08:value-same-as-never-crashed":
-                continue   # the engine answers the same without any crash: C01's findings (F1 / F14), counted in the distribution
+            # no attribution is left (F1 / F14 are fixed in /repo): a wrong value after a crash is a violation, also when
+            # a never-crashed engine answers the same (`C08:value-same-as-never-crashed`: then it is C01's as well)
+            if (f["sig"], f["case"]) in seen: continue
+            seen.add((f["sig"], f["case"]))
             res.oracle_failures.append(dict(f))
-    # attribution of crash-specific value failures (DESIGN §2.4): a known-finding toggle repairs the whole case
-    for f in res.oracle_failures:
-        if f["sig"] in ("C08:value", "C08:value-at-full-log"):
-            who = attribute(ctx, f["case"])
-            if who: f["sig"] = "C08:attributed:" + who
+    for a in an:
+        for r in a["impl_fail"]:
+            if not any(o["sig"].startswith("C08:value") for o in res.oracle_failures):
+                res.oracle_failures.append({"sig": "C08:value", "desc": f"{r['line']} -> {r['impl']} expected {r['expected']}", "case": r["case"]})
     if not ctx.quick() and not ctx.replay:
         base.rocks(ctx, res, "c08")
     return res
-
-
-_n = [0]
-
-
-def attribute(ctx, case_text):
-    """does the model with a known finding's toggle switched to 'repaired' meet the from-scratch oracle on this case?"""
-    _n[0] += 1
-    if _n[0] > 8: return None
-    d = os.path.join(ctx.work, f"attr-{_n[0]}")
-    os.makedirs(d, exist_ok=True)
-    rp = os.path.join(d, "case.txt")
-    open(rp, "w").write(case_text)
-    binpath = os.environ.get("VERIF_PERSIST_BIN") or os.path.join(vlib.HARNESS, "target", "release", "persist")
-    # the replayed case is the history; the failing crash point is the `crash L` / `round` pair appended to it
-    lines = [l for l in case_text.split("\n") if l.strip()]
-    crash = [l for l in lines if l.startswith("crash")]
-    if not crash: return None
-    hist = [l for l in lines if not l.startswith(("crash", "cfg"))]
-    post = lines[lines.index(crash[0]):]
-    hist = lines[:lines.index(crash[0])]
-    ops_path = os.path.join(d, "ops.txt")
-    open(ops_path, "w").write("\n".join([l for l in hist if not l.startswith("cfg")] + post) + "\n")
-    # expected values of the post-crash round: recompute with the harness (replay runs every boundary; find ours)
-    sh = base.run_shard(binpath, "c08", 0, "thorough", None, os.path.join(d, "replay"), replay=rp)
-    if "error" in sh: return None
-    ops, exp = sh["ops"], sh["expect"]
-    want = None
-    for i, l in enumerate(ops):
-        if l == crash[0] and i + 1 < len(ops) and len(post) > 1 and sorted(ops[i + 1].split()[1:]) == sorted(post[1].split()[1:]):
-            # same crash point; the replay may have drawn another query order: use the model on OUR order, the oracle per key
-            keys = ops[i + 1].split()[1:]; vals = exp[i + 1].split()
-            m = dict(zip(keys, vals))
-            want = " ".join(m[k] for k in post[1].split()[1:])
-            break
-    if want is None: return None
-    for name, args in [("f1", ["f1"]), ("f14", ["f14"]), ("f1+f14", ec.ALL_TOGGLES)]:
-        mp = os.path.join(d, f"model_{name}.txt")
-        rc, err = vlib.run_driver("drv_persist", ops_path, mp, args)
-        if rc != 0: continue
-        out = open(mp).read().split("\n")
-        n = len([l for l in hist if not l.startswith("cfg")])
-        if len(out) > n + 1 and ec.vals(ec.strip(out[n + 1])) == want:
-            return name
-    return None
 
 
 def search(ctx, res):
@@ -114,5 +70,5 @@ def search(ctx, res):
     res2, an, reps = base.collect(ctx, "c08", 160, 900)
     out = []
     for r in reps:
-        out += [f for f in r["oracle_failures"] if f["sig"] != "C08:value-same-as-never-crashed"]
+        out += r["oracle_failures"]
     return out[:3]
